@@ -22,7 +22,25 @@ const (
 	vkHistCold  = "cold"  // nothing asked before
 	vkHistWarm  = "warm"  // the A answer asked (DO, CD=0) and cached immediately before
 	vkHistStale = "stale" // the A answer asked, then the clock advanced past every DNSKEY / DS / NS / negative TTL but not past the A TTL
+	// the same two histories, after which the chain LOSES ITS TRUST ANCHORS (what the automatic trust-anchor
+	// maintenance does at run time when it fails closed) before the AAAA question is asked
+	vkHistNoAnchors      = "noanchors"
+	vkHistNoAnchorsStale = "noanchors-stale"
 )
+
+func vkHistNoAnchor(h string) bool { return h == vkHistNoAnchors || h == vkHistNoAnchorsStale }
+func vkHistAdvances(h string) bool { return h == vkHistStale || h == vkHistNoAnchorsStale }
+
+// vkHistAnchored: the same history with the anchors left in place (the baseline of a no-anchor scenario).
+func vkHistAnchored(h string) string {
+	switch h {
+	case vkHistNoAnchors:
+		return vkHistWarm
+	case vkHistNoAnchorsStale:
+		return vkHistStale
+	}
+	return h
+}
 
 type vkTamper struct {
 	Key  authsim.Key `json:"key"`
@@ -36,12 +54,16 @@ type vkScenario struct {
 	F      h_resolver.Flags `json:"flags"`
 	Hist   string           `json:"hist"`
 	Tamper *vkTamper        `json:"tamper,omitempty"`
+	Then   *vkTamper        `json:"then,omitempty"` // a second rewritten response: a sub-query the first tamper provokes
 }
 
 func (s vkScenario) String() string {
 	t := "untampered"
 	if s.Tamper != nil {
 		t = s.Tamper.Kind + "@" + s.Tamper.Key.String()
+	}
+	if s.Then != nil {
+		t += ", then " + s.Then.Kind + "@" + s.Then.Key.String()
 	}
 	return fmt.Sprintf("rot%d %s AAAA %s hist=%s [%s]", s.Rot, s.Name, s.F, s.Hist, t)
 }
@@ -105,6 +127,7 @@ type vkRun struct {
 	path      []authsim.Query // upstream exchanges of the AAAA ask only
 	histLen   int             // upstream exchanges of the history
 	fired     bool            // the scripted exchange occurred and the response sent differs from the honest one
+	fired2    bool            // the same for the second tamper (Then)
 	disturbed bool
 	elapsed   time.Duration
 }
@@ -136,13 +159,20 @@ func (w *vkWorld) runOnce(pl *h_resolver.Pipeline, s vkScenario) vkRun {
 		if r.Elapsed > 300*time.Millisecond {
 			res.disturbed = true
 		}
-		if s.Hist == vkHistStale {
+		if vkHistAdvances(s.Hist) {
 			vtime.Advance(vkStaleStep * time.Second)
+		}
+		if vkHistNoAnchor(s.Hist) {
+			_ = pl.SetTrustAnchors(nil)
+			defer func() { _ = pl.SetTrustAnchors(w.u.TrustAnchors()) }() // (pl.Reset restores them as well)
 		}
 	}
 	res.histLen = len(w.sim.Log())
 	if s.Tamper != nil {
 		w.sim.Script(s.Tamper.Key, w.transformer(*s.Tamper))
+	}
+	if s.Then != nil {
+		w.sim.Script(s.Then.Key, w.transformer(*s.Then))
 	}
 	r := pl.Ask(s.Name, dns.TypeAAAA, s.F, "tcp")
 	w.c.Add("evaluations", 1)
@@ -152,11 +182,18 @@ func (w *vkWorld) runOnce(pl *h_resolver.Pipeline, s vkScenario) vkRun {
 	}
 	log := w.sim.Log()
 	res.path = log[res.histLen:]
-	if s.Tamper != nil {
-		want := authsim.Key{Server: s.Tamper.Key.Server, QName: zonemodel.Canon(s.Tamper.Key.QName), QType: s.Tamper.Key.QType, Occ: s.Tamper.Key.Occ}
+	for i, tm := range []*vkTamper{s.Tamper, s.Then} {
+		if tm == nil {
+			continue
+		}
+		want := authsim.Key{Server: tm.Key.Server, QName: zonemodel.Canon(tm.Key.QName), QType: tm.Key.QType, Occ: tm.Key.Occ}
 		for _, lq := range res.path {
 			if lq.Scripted && lq.Changed && lq.Key() == want {
-				res.fired = true
+				if i == 0 {
+					res.fired = true
+				} else {
+					res.fired2 = true
+				}
 			}
 		}
 	}
